@@ -5,6 +5,7 @@ mod obs_storage;
 mod refserver;
 mod rep;
 mod seal;
+mod wire;
 mod store;
 mod task;
 
@@ -404,6 +405,62 @@ fn run_backend(args: &Args) {
     std::fs::write(args.out.join("stats.json"), format!("{{{}}}\n", body.join(", "))).unwrap();
 }
 
+fn run_wire(args: &Args) {
+    std::fs::create_dir_all(&args.out).unwrap();
+    let mut ops = std::io::BufWriter::new(std::fs::File::create(args.out.join("ops.txt")).unwrap());
+    let mut imp = std::io::BufWriter::new(std::fs::File::create(args.out.join("impl.out")).unwrap());
+    let mut stats: std::collections::HashMap<String, u64> = std::collections::HashMap::new();
+    let mut cases: Vec<(String, Vec<String>)> = Vec::new();
+    let mut files: Vec<PathBuf> = Vec::new();
+    if let Some(r) = &args.replay {
+        files.push(r.clone());
+    } else if let Some(c) = &args.corpus {
+        if let Ok(rd) = std::fs::read_dir(c) {
+            let mut fs: Vec<PathBuf> = rd.filter_map(|e| e.ok().map(|e| e.path())).collect();
+            fs.sort();
+            files.extend(fs);
+        }
+    }
+    for f in &files {
+        for (ci, (_, lines)) in read_cases(f).into_iter().enumerate() {
+            let name = f.file_name().unwrap().to_string_lossy().to_string();
+            cases.push((format!("# case corpus:{}#{}", name, ci), lines));
+        }
+    }
+    if args.replay.is_none() {
+        let mut rng = Rng::new(args.seed);
+        for i in 0..args.cases {
+            let mut crng = rng.fork();
+            let mut lines = Vec::new();
+            for _ in 0..6 {
+                lines.push(match crng.below(6) {
+                    0 | 1 => wire::gen_enc(&mut crng, args.max_len),
+                    2 | 3 | 4 => wire::gen_dec(&mut crng, args.max_len, false),
+                    _ => wire::gen_dec(&mut crng, args.max_len, true),
+                });
+            }
+            cases.push((format!("# case {} seed={}", i, args.seed), lines));
+        }
+    }
+    for (hdr, lines) in cases {
+        writeln!(ops, "{}", hdr).unwrap();
+        writeln!(imp, "{}", hdr).unwrap();
+        for l in lines {
+            let o = wire::exec(&l);
+            let k = format!("{}.{}", l.split(' ').next().unwrap_or("?"), o.split(' ').next().unwrap_or("?"));
+            *stats.entry(k).or_insert(0) += 1;
+            writeln!(ops, "{}", l).unwrap();
+            writeln!(imp, "> {}", l).unwrap();
+            writeln!(imp, "{}", o).unwrap();
+        }
+        *stats.entry("cases".into()).or_insert(0) += 1;
+    }
+    let mut keys: Vec<&String> = stats.keys().collect();
+    keys.sort();
+    let body: Vec<String> = keys.iter().map(|k| format!("\"{}\": {}", k, stats[*k])).collect();
+    std::fs::write(args.out.join("stats.json"), format!("{{{}}}\n", body.join(", "))).unwrap();
+}
+
 fn run_seal(args: &Args) {
     std::fs::create_dir_all(&args.out).unwrap();
     let mut ops = std::io::BufWriter::new(std::fs::File::create(args.out.join("ops.txt")).unwrap());
@@ -617,6 +674,7 @@ fn main() {
         "task" => run_task(&args),
         "seal" => run_seal(&args),
         "backend" => run_backend(&args),
+        "wire" => run_wire(&args),
         f => {
             eprintln!("unknown family {}", f);
             std::process::exit(2);
